@@ -1059,6 +1059,9 @@ func callBuiltin(caller *frame, fn *ssa.Builtin, args []value) value {
 		case string:
 			return len(x)
 		case symstr:
+			if hasPoison(x) {
+				panic(engineFault{"length of the formatted text of a symbolic number (formatting is stubbed)"})
+			}
 			return len(x)
 		case array:
 			return len(x)
